@@ -1486,6 +1486,24 @@ fn parse_unary_expression(tokens: &mut Tokens) -> Result<Expression, Error>
 						location,
 					})
 				}
+				Expression::BitIntegerLiteral {
+					value,
+					value_type,
+					location: _,
+				} if value == (1u128 << 127)
+					&& value_type.as_ref().map_or(true, |vt| match vt
+					{
+						Ok(vt) => vt.is_signed(),
+						Err(_) => false,
+					}) =>
+				{
+					// The value 2^127 is only valid as a negative.
+					Ok(Expression::SignedIntegerLiteral {
+						value: i128::MIN,
+						value_type,
+						location,
+					})
+				}
 				expr =>
 				{
 					let expression = Expression::Unary {
